@@ -154,6 +154,11 @@ def expr_to_gallina(src, node, env):
             for p in reversed(parts[:-1]):
                 t = f'({op} {p[0]} {t})'
             return t, 'bool'
+        if isinstance(n, ast.IfExp):
+            c, a, b = go(n.test), go(n.body), go(n.orelse)
+            if c[1] != 'bool' or a[1] != b[1] or a[1] == 'tuple':
+                src.fail(n, 'conditional expression outside the subset')
+            return f'(if {c[0]} then {a[0]} else {b[0]})', a[1]
         if isinstance(n, ast.UnaryOp) and isinstance(n.op, ast.Not):
             t, ty = go(n.operand)
             if ty != 'bool':
